@@ -167,6 +167,44 @@ func c12R5(ic *IC, r *Report) {
 			})
 		}
 	}
+	// a guard shared by several kinds: `if c, _ := H(n); c != nil && !isBool(c.typ) { err = ... }`
+	// placed in cfg outside the kind switch, H being a plain helper that returns the condition
+	// child per node kind: the kinds listed in H's cases are checked by that guard
+	sharedChecked := map[string]bool{}
+	ast.Inspect(cfgFn.Decl.Body, func(nd ast.Node) bool {
+		ifs, ok := nd.(*ast.IfStmt)
+		if !ok || ifs.Init == nil {
+			return true
+		}
+		as, ok := ifs.Init.(*ast.AssignStmt)
+		if !ok || len(as.Rhs) != 1 {
+			return true
+		}
+		hc, ok := unparen(as.Rhs[0]).(*ast.CallExpr)
+		if !ok {
+			return true
+		}
+		h, _ := calleeOf(ic.Info, hc).(*types.Func)
+		if h == nil || h.Pkg() != ic.Pk.Types || len(callsIn(ic.Info, ifs.Cond, true, "interp.isBool")) == 0 {
+			return true
+		}
+		// the guard must reject: its body assigns the pass's error or returns
+		if hfi := ic.G.Funcs[h]; hfi != nil && hfi.Decl.Body != nil {
+			ast.Inspect(hfi.Decl.Body, func(k ast.Node) bool {
+				if cc, ok := k.(*ast.CaseClause); ok {
+					for _, e := range cc.List {
+						if id := identOf(e); id != nil {
+							if c, ok := ic.Info.Uses[id].(*types.Const); ok {
+								sharedChecked[c.Name()] = true
+							}
+						}
+					}
+				}
+				return true
+			})
+		}
+		return true
+	})
 	sites := 0
 	ast.Inspect(cfgFn.Decl.Body, func(nd ast.Node) bool {
 		cc, ok := nd.(*ast.CaseClause)
@@ -213,8 +251,13 @@ func c12R5(ic *IC, r *Report) {
 				cond := ic.Info.ObjectOf(id)
 				sites++
 				label := types.ExprString(cc.List[0])
-				// is there a boolean check of cond in this case?
+				// is there a boolean check of cond in this case (or in a guard shared by its kind)?
 				checked := false
+				for _, e := range cc.List {
+					if id := identOf(e); id != nil && sharedChecked[id.Name] {
+						checked = true
+					}
+				}
 				for _, st2 := range cc.Body {
 					ast.Inspect(st2, func(k ast.Node) bool {
 						c2, ok := k.(*ast.CallExpr)
